@@ -24,7 +24,7 @@ META = {
                   "(nonfatal_never_fails), its Extract calls are exactly those of the fault-erased tree whose path is not lost "
                   "(faults_contained; in requested-paths mode a path that cannot be stat'ed contributes nothing and does not affect later paths: faults_contained_paths), every open/stat/extract failure is an item of the owning plugin's failed / partially-"
                   "succeeded status and every non-succeeded status has such a cause (faults_surface, required_file_outcome); "
-                  "with ErrorOnFSErrors the scan succeeds iff no traversal fault is reached (fatal_iff_traversal_fault); Scan's "
+                  "with ErrorOnFSErrors the scan succeeds iff no traversal fault is reached, an unreadable .gitignore of an entered directory (permission or other error) being one (fatal_iff_traversal_fault); Scan's "
                   "status is Failed iff Run returned an error (scan_status_derivation). No refutation is left: the lazy-Stat abort, the "
                   "gitignore-stack panic and the unreadable-.gitignore abort were repaired in /repo (commits fcea44df, 3fdcaf3f, d544b0e3); "
                   "their witnesses are in the regression corpus. faults_contained carries gi_readable (an unreadable .gitignore contributes "
